@@ -8,9 +8,16 @@
 //@ group k2_commands
 //@ inject src/commands.rs
 //@ default-clause C20.parse.nopanic
-//@ harness k2_parse_text       tier=quick kind=complete fn=src/commands.rs::parse(QUERY|FIELD_LIST|INIT_DB|PREPARE)
-//@ harness k2_parse_stmt       tier=quick kind=complete fn=src/commands.rs::{parse,execute,send_long_data}(EXECUTE|SEND_LONG_DATA|CLOSE)
-//@ harness k2_parse_other      tier=quick kind=complete fn=src/commands.rs::parse(QUIT|PING|every-other-first-byte)
+//@ harness k2_parse_text_03     tier=quick kind=complete fn=src/commands.rs::parse(COM_QUERY)
+//@ harness k2_parse_text_04     tier=quick kind=complete fn=src/commands.rs::parse(COM_FIELD_LIST)
+//@ harness k2_parse_text_02     tier=quick kind=complete fn=src/commands.rs::parse(COM_INIT_DB)
+//@ harness k2_parse_text_16     tier=quick kind=complete fn=src/commands.rs::parse(COM_STMT_PREPARE)
+//@ harness k2_parse_stmt_17     tier=quick kind=complete fn=src/commands.rs::{parse,execute}(COM_STMT_EXECUTE)
+//@ harness k2_parse_stmt_18     tier=quick kind=complete fn=src/commands.rs::{parse,send_long_data}(COM_STMT_SEND_LONG_DATA)
+//@ harness k2_parse_stmt_19     tier=quick kind=complete fn=src/commands.rs::parse(COM_STMT_CLOSE)
+//@ harness k2_parse_other_01    tier=quick kind=complete fn=src/commands.rs::parse(COM_QUIT)
+//@ harness k2_parse_other_0e    tier=quick kind=complete fn=src/commands.rs::parse(COM_PING)
+//@ harness k2_parse_other_rest  tier=quick kind=complete fn=src/commands.rs::parse(every-other-first-byte,empty-payload)
 //@ harness k2_handshake_fixed  tier=quick kind=complete fn=src/commands.rs::client_handshake(fixed-offset-fields,SSL-request-path)
 //@ harness k2_handshake_user   tier=quick kind=bounded bound=scanned-region-at-most-12-bytes,memchr-replaced-by-its-specification fn=src/commands.rs::client_handshake(user-name)
 //@ clause C02.parse.table    parse(p) follows the command table: byte -> variant, text commands carry p[1..] by pointer and length, ids little-endian at fixed offsets
@@ -29,43 +36,103 @@ use crate::verif_kani_common::*;
 #[kani::proof]
 #[kani::stub(std::fmt::format, fmt_stub)]
 #[kani::unwind(6)]
-pub fn k2_parse_text() {
-    k2_parse(0)
+pub fn k2_parse_text_03() {
+    let (ok, n) = k2_parse(Some(0x03));
+    vk_cover!(ok && n > 70000, "cover: a payload longer than 70000 bytes is accepted");
 }
 #[cfg(kani)]
 #[kani::proof]
 #[kani::stub(std::fmt::format, fmt_stub)]
 #[kani::unwind(6)]
-pub fn k2_parse_stmt() {
-    k2_parse(1)
+pub fn k2_parse_text_04() {
+    let (ok, n) = k2_parse(Some(0x04));
+    vk_cover!(ok && n > 70000, "cover: a payload longer than 70000 bytes is accepted");
 }
 #[cfg(kani)]
 #[kani::proof]
 #[kani::stub(std::fmt::format, fmt_stub)]
 #[kani::unwind(6)]
-pub fn k2_parse_other() {
-    k2_parse(2)
+pub fn k2_parse_text_02() {
+    let (ok, n) = k2_parse(Some(0x02));
+    vk_cover!(ok && n > 70000, "cover: a payload longer than 70000 bytes is accepted");
+}
+#[cfg(kani)]
+#[kani::proof]
+#[kani::stub(std::fmt::format, fmt_stub)]
+#[kani::unwind(6)]
+pub fn k2_parse_text_16() {
+    let (ok, n) = k2_parse(Some(0x16));
+    vk_cover!(ok && n > 70000, "cover: a payload longer than 70000 bytes is accepted");
+}
+#[cfg(kani)]
+#[kani::proof]
+#[kani::stub(std::fmt::format, fmt_stub)]
+#[kani::unwind(6)]
+pub fn k2_parse_stmt_17() {
+    let (ok, n) = k2_parse(Some(0x17));
+    vk_cover!(ok && n > 70000, "cover: a payload longer than 70000 bytes is accepted");
+}
+#[cfg(kani)]
+#[kani::proof]
+#[kani::stub(std::fmt::format, fmt_stub)]
+#[kani::unwind(6)]
+pub fn k2_parse_stmt_18() {
+    let (ok, n) = k2_parse(Some(0x18));
+    vk_cover!(ok && n > 70000, "cover: a payload longer than 70000 bytes is accepted");
+}
+#[cfg(kani)]
+#[kani::proof]
+#[kani::stub(std::fmt::format, fmt_stub)]
+#[kani::unwind(6)]
+pub fn k2_parse_stmt_19() {
+    let (ok, n) = k2_parse(Some(0x19));
+    vk_cover!(ok && n > 70000, "cover: a payload longer than 70000 bytes is accepted");
+}
+#[cfg(kani)]
+#[kani::proof]
+#[kani::stub(std::fmt::format, fmt_stub)]
+#[kani::unwind(6)]
+pub fn k2_parse_other_01() {
+    let (ok, n) = k2_parse(Some(0x01));
+    vk_cover!(ok && n > 70000, "cover: a payload longer than 70000 bytes is accepted");
+}
+#[cfg(kani)]
+#[kani::proof]
+#[kani::stub(std::fmt::format, fmt_stub)]
+#[kani::unwind(6)]
+pub fn k2_parse_other_0e() {
+    let (ok, n) = k2_parse(Some(0x0e));
+    vk_cover!(ok && n > 70000, "cover: a payload longer than 70000 bytes is accepted");
+}
+#[cfg(kani)]
+#[kani::proof]
+#[kani::stub(std::fmt::format, fmt_stub)]
+#[kani::unwind(6)]
+pub fn k2_parse_other_rest() {
+    let (ok, n) = k2_parse(None);
+    vk_cover!(!ok && n > 70000, "cover: a long payload with an unknown command byte is rejected");
 }
 
-/// class 0: text commands, 1: statement commands, 2: everything else (together: every first byte)
+/// One harness per command byte of the table (the first byte is concrete, so that nom's `alt` over
+/// `tag`s is decided during symbolic execution), and one for every OTHER first byte and the empty
+/// payload: together every payload. (Three harnesses over classes of bytes took 260-415 s each.)
 #[cfg(kani)]
-fn k2_parse(class: u8) {
+fn k2_parse(first: Option<u8>) -> (bool, usize) {
     let n: usize = vk::any();
     vk::assume(n <= (1usize << 40));
-    let v = lazy_bytes(n);
-    let p = &v[..];
+    let mut v = lazy_bytes(n);
     if n == 0 {
-        vk_assert!(parse(p).is_err(), "[C02.parse.reject] empty payload accepted");
-        return;
+        vk::assume(first.is_none());
+        vk_assert!(parse(&v[..]).is_err(), "[C02.parse.reject] empty payload accepted");
+        return (false, 0);
     }
-    let cls = match p[0] {
-        0x03 | 0x04 | 0x02 | 0x16 => 0,
-        0x17 | 0x18 | 0x19 => 1,
-        _ => 2,
-    };
-    vk::assume(cls == class);
+    match first {
+        Some(b) => v[0] = b,
+        None => vk::assume(!matches!(v[0], 0x03 | 0x04 | 0x02 | 0x16 | 0x17 | 0x18 | 0x19 | 0x01 | 0x0e)),
+    }
+    let p = &v[..];
     let r = noerr(parse(p));
-    vk_cover!(r.is_ok() && n > 70000, "cover: a payload longer than 70000 bytes is accepted");
+    let ok_ = r.is_ok();
     let tail_ptr = unsafe { p.as_ptr().add(1) };
     let text = |q: &[u8]| q.as_ptr() == tail_ptr && q.len() == n - 1;
     match p[0] {
@@ -118,6 +185,7 @@ fn k2_parse(class: u8) {
             vk_assert!(r.is_err(), "[C02.parse.reject] unknown command byte accepted");
         }
     }
+    (ok_, n)
 }
 
 #[cfg(kani)]
